@@ -7,7 +7,7 @@ import random
 import streamlib as sl
 from vlib import build_lib
 
-THEOREMS = None
+THEOREMS = ["C18_table_inv", "C18_table_inv_step", "C18_stale_skipped_oneshot", "C18_stale_skipped_stream", "C18_fastReset_any_state", "C18_history_roundtrip"]
 ORACLES = ["stream"]
 CORRESPONDENCE = ["Model.FastStream / Model.FastApi (prepareTable reset conditions, fastReset one-shots, extState, destSize_extState, resetStream_fast, "
                   "streaming sessions, loadDict, attach, failed calls) == lib/lz4.c: return value, output bytes and whole public stream state after EVERY operation of the history"]
@@ -27,7 +27,7 @@ def build(tier):
 def gen_cases(tier, seed):
     rng = random.Random(seed)
     n = {"quick": 60, "search": 200, "thorough": 500}[tier]
-    cases = []
+    cases = [{"bseed": 18, "kind": "corpus_u16_cleared", "arena": 1 << 16}]
     for i in range(n):
         fam = "f" if i % 3 < 2 else "h"
         big = i % 7 == 0
@@ -40,6 +40,8 @@ def gen_cases(tier, seed):
 worker_init = sl.worker_init
 
 def run_case(st, case):
+    if case["kind"] == "corpus_u16_cleared":
+        return sl.run_scenario(st, case, lambda S, rng: sl.corpus_u16_cleared(S, rng))
     def fn(S, rng):
         sl.scen_reuse(S, rng, case["fam"], case["p"])
     return sl.run_scenario(st, case, fn)
